@@ -125,7 +125,11 @@ def module_text(case):
     head = 'from pv_w import quiet\n'
     style = case['style']
     if style == 'func':
-        return head + function_text(case, 0)
+        shadow = ''
+        if case.get('shadow'):
+            sig = '*args: int' if case['shadow']['star'] else 'a: int = 0, b: int = 0'
+            shadow = ''.join('@' + d + '\n' for d in case['decos']) + f'def {case["name"]}({sig}) -> None:\n    return None\n_pv_shadow = {case["name"]}\n'
+        return head + shadow + function_text(case, 0)
     body = function_text(case, 4)
     if style == 'property':
         # getter + setter of one property `name`
@@ -288,7 +292,8 @@ def run_case(case):
         r.result_obj = U.render_val(case['body'][1])
         reified['body'] = ['ret', U.reify_val(r.result_obj, case['body'][1])]
     else:
-        r.exc_obj = excs.cls_of(case['body'][1])('scripted')
+        import p_common_msgs
+        r.exc_obj = excs.cls_of(case['body'][1])(p_common_msgs.EXC_MSGS[case.get('exc_msg', 0)])
     if case['gen']:
         r.script_objs = [U.render_val(s[1]) if s[0] in ('yield', 'ret') else excs.cls_of(s[1])('scripted') for s in case['script']]
         ot = case.get('on_throw', 'propagate')
@@ -331,10 +336,10 @@ def run_case(case):
         except BaseException as ex:
             return {'decoration': exc_code(ex), 'exc': type(ex).__name__ + ': ' + str(ex)[:150]}
     else:
-        if len(r.seen) != 1:
+        if len(r.seen) != (2 if case.get('shadow') else 1):
             return {'error': f'{len(r.seen)} functions reached the decorator'}
         try:
-            fnr = reify_fn(r.seen[0], case, K, Sub)
+            fnr = reify_fn(r.seen[-1], case, K, Sub)
         except Unrepresentable as ex:
             return {'skip': str(ex)}
     res['fn'] = fnr
@@ -379,6 +384,12 @@ def run_case(case):
         return getattr(base, name)
 
     op_results = None
+    if case.get('shadow'):
+        # the earlier function of the same name is called first; whatever it does must not influence the call under test
+        try:
+            mod._pv_shadow(*[U.render_val(v) for v in case['shadow']['args']])
+        except BaseException:      # noqa
+            pass
     try:
         if style == 'property':
             inst = recv_objs[via]
@@ -402,6 +413,11 @@ def run_case(case):
         res['out'] = 0
         if case['gen']:
             res['wrapper_type'] = type(out).__name__
+            if case.get('drive') == 'yield_from':
+                def _pv_outer(inner):
+                    result = yield from inner
+                    return result
+                out = _pv_outer(out)
             op_results = run_ops(r, out, case)
         elif case['body'][0] == 'ret' and style != 'property':
             res['same_object'] = out is r.result_obj
